@@ -195,7 +195,17 @@ class ExprMixin:
 
     # ------------------------------------------------------------------ attribute access
     def ev_Attribute(self, st, node):
-        return self.bind(self.ev(st, node.value), lambda st2, base: self.getattr_v(st2, base, node.attr, node))
+        def k(st2, base):
+            outs = self.getattr_v(st2, base, node.attr, node)
+            if isinstance(base, SV):
+                for o in outs:
+                    if o.kind == 'ok' and isinstance(o.val, SV) and o.val.cls is None and o.val.origin is None:
+                        nv = SV(o.val.term, o.val.kind, o.val.cls, o.val.exact, o.val.tag)
+                        nv.origin = (base, node.attr)
+                        o.val = nv
+            return outs
+
+        return self.bind(self.ev(st, node.value), k)
 
     def enum_member(self, ci, name):
         cid = self.const_id(f'enum:{ci.qualname}.{name}')
@@ -373,6 +383,9 @@ class ExprMixin:
                 if c0 is not None and c0.opts.get('dispatch') == 'static':
                     self.assumptions_used.add(f'behavioural subtyping: every override of {f0.qualname} obeys its contract')
                     return outs + self.ok(st, BoundV(FuncV(f0), v))
+        if v.cls is None and self.config.get('user_results_foreign') \
+                and self.entails(st, z3.Select(st.CL, r) >= I(self.index.first_free_id), 300):
+            return outs + self.getattr_resolved(st, v, name, ('heap', None), node)
         cands = self.candidate_classes(st, v)
         # group candidates by how `name` resolves
         groups = {}
